@@ -73,7 +73,8 @@ pub fn run_target(target: &str, data: &[u8]) -> Result<(), Fail> {
             let kind: u8 = u.arbitrary().unwrap_or(0);
             let a: u16 = u.arbitrary().unwrap_or(0);
             let b: u8 = u.arbitrary().unwrap_or(0);
-            let tamper = match kind % 13 {
+            let tamper = match kind % 14 {
+                12 => c04::Tamper::AltEncoding(b % 12),
                 11 => c04::Tamper::Multi(b, multi_from(a as u32 * 65537 + b as u32, b)),
                 0 => c04::Tamper::FlipBit(a % 512),
                 1 => c04::Tamper::SetComponent(b % 2, (a % 8) as u8),
@@ -152,7 +153,9 @@ pub fn run_target(target: &str, data: &[u8]) -> Result<(), Fail> {
             let bearer: u8 = u.arbitrary().unwrap_or(0);
             let length: u16 = u.arbitrary().unwrap_or(1);
             let seed: u64 = u.arbitrary().unwrap_or(0);
-            let case = c18::EC { key, count, bearer: (bearer % 32) as u32, direction: (bearer >> 7) as u32, length: (length % 4096) as u32 + if which { 1 } else { 0 }, seed, surplus: bearer % 3 };
+            // the remaining bytes are the leading message words themselves, so that the fuzzer controls message content
+            let explicit: Vec<u32> = u.take_rest().chunks(4).filter(|c| c.len() == 4).take(128).map(|c| u32::from_be_bytes([c[0], c[1], c[2], c[3]])).collect();
+            let case = c18::EC { key, count, bearer: (bearer % 32) as u32, direction: (bearer >> 7) as u32, length: (length % 4096) as u32 + if which { 1 } else { 0 }, seed, surplus: bearer % 3, content: (seed >> 56) as u8, explicit };
             if which {
                 c18::check_eea(&case)
             } else {
